@@ -37,6 +37,56 @@ pub fn to_modes(spec: &[ModeSpec]) -> Vec<ScannerMode> {
         .collect()
 }
 
+/// The same configuration read through serde (the deserializer accepts transition tables that
+/// `ScannerMode::new` would reject in a debug build: unsorted, duplicate token types).
+pub fn to_modes_json(spec: &[ModeSpec]) -> Option<Vec<ScannerMode>> {
+    let v: Vec<serde_json::Value> = spec
+        .iter()
+        .map(|m| {
+            serde_json::json!({
+                "name": m.name,
+                "patterns": m.patterns.iter().map(|p| {
+                    let mut o = serde_json::json!({ "pattern": p.pattern, "token_type": p.tid });
+                    if let Some((pos, la)) = &p.lookahead {
+                        o["lookahead"] = serde_json::json!({ "is_positive": pos, "pattern": la });
+                    }
+                    o
+                }).collect::<Vec<_>>(),
+                "transitions": m.transitions.iter().map(|t| serde_json::json!([t.0, t.1])).collect::<Vec<_>>(),
+            })
+        })
+        .collect();
+    serde_json::from_value(serde_json::Value::Array(v)).ok()
+}
+
+/// Characters at the boundaries of the UTF-8 length classes, code points whose low byte / low 16 or
+/// 20 bits alias ASCII letters and line breaks, separators and a combining mark.
+pub const EXOTIC: [char; 22] = [
+    '\u{80}', '\u{ff}', '\u{100}', '\u{7ff}', '\u{800}', '\u{ffff}', '\u{10000}', '\u{10ffff}', '\r', '\u{2028}',
+    '\u{2029}', '\u{301}', '\u{4e0a}', '\u{10a}', '\u{1f60a}', '\u{10061}', '\u{100061}', '\u{100062}', '\u{10062}',
+    '\u{131}', '\u{161}', '\u{7f}',
+];
+
+/// Inserts a few exotic characters at random places (separate generator state).
+pub fn sprinkle_exotic(r: &mut Rng, input: &str) -> String {
+    let cs: Vec<char> = input.chars().collect();
+    let mut out = String::new();
+    for (i, c) in cs.iter().enumerate() {
+        if r.chance(8) || (i == 0 && r.chance(20)) {
+            out.push(*r.pick(&EXOTIC));
+            if r.chance(30) {
+                // directly followed by the character it aliases with
+                out.push(*r.pick(&['a', 'b', '\n']));
+            }
+        }
+        out.push(*c);
+    }
+    if r.chance(30) {
+        out.push(*r.pick(&EXOTIC));
+    }
+    out
+}
+
 pub struct ProgCfg {
     pub max_modes: usize,
     pub max_patterns: usize,
